@@ -1,3 +1,96 @@
 import Ptk.Proto
--- stub: the C09 model driver has not been written yet
-def main : IO Unit := Ptk.Proto.run fun _ => "bad-op"
+import Ptk.Gen.PyChars
+import Ptk.Model.C09
+open Ptk Ptk.Py Ptk.Proto Ptk.C09
+
+/-! Line-protocol driver for the C09 model (kill ring, Emacs kill/yank commands, paste). -/
+
+def encTy : SelType → String
+  | .chars => "c" | .lines => "l" | .block => "b"
+def decTy (s : String) : Option SelType :=
+  if s == "c" then some .chars else if s == "l" then some .lines else if s == "b" then some .block else none
+def decMode (s : String) : Option PasteMode :=
+  if s == "e" then some .emacs else if s == "B" then some .viBefore else if s == "A" then some .viAfter else none
+
+def encRing (r : Ring) : String :=
+  toString r.length ++ r.foldl (fun acc d => acc ++ " " ++ encTy d.ty ++ " " ++ encStr d.text) ""
+
+def encDbp : Option Buf → String
+  | none => "N"
+  | some b => s!"D {encStr b.text} {b.cur}"
+
+def decArg (s : String) : Option Arg :=
+  if s == "N" then some .none else if s == "-" then some .dash else (decInt s).map .num
+
+/-- `n ty text ty text …` -/
+def decRing : Nat → List String → Option Ring
+  | 0, [] => some []
+  | n + 1, ty :: t :: rest => do
+    let ty ← decTy ty
+    let t ← decStr t
+    let r ← decRing n rest
+    pure ({ text := t, ty := ty } :: r)
+  | _, _ => none
+
+structure DS where
+  e : St
+  max : Nat
+
+def encSt (s : St) : String :=
+  s!"{encStr s.buf.text} {s.buf.cur} {encRing s.ring} {encDbp s.dbp}"
+
+def parseCmd : List String → Option Cmd
+  | ["kl"] => some .killLine
+  | ["ld"] => some .lineDiscard
+  | ["kw"] => some .killWord
+  | ["wr"] => some .wordRubout
+  | ["bk"] => some .backKillWord
+  | ["y"] => some .yank
+  | ["yp"] => some .yankPop
+  | ["f"] => some .fwdChar
+  | ["b"] => some .bwdChar
+  | ["ins", c] => do pure (.ins (Char.ofNat (← decNat c)))
+  | ["goto", n] => do pure (.goto (← decNat n))
+  | ["reg", a, b, k] => do pure (.region (← decNat a) (← decNat b) (← decBool k))
+  | _ => none
+
+def stepLine (ds : DS) (toks : List String) : DS × String :=
+  match toks with
+  | "einit" :: t :: c :: m :: n :: rest =>
+    match decStr t, decNat c, decNat m, decNat n with
+    | some t, some c, some m, some n =>
+      match decRing n rest with
+      | some r =>
+        let s : St := { buf := { text := t, cur := c }, ring := r, dbp := none, prev := .other }
+        ({ ds with e := s, max := m }, encSt s)
+      | none => (ds, "bad-op")
+    | _, _, _, _ => (ds, "bad-op")
+  | "e" :: a :: rest =>
+    match decArg a, parseCmd rest with
+    | some a, some cmd =>
+      let s := step Gen.reSpace ds.max ds.e a cmd
+      ({ ds with e := s }, encSt s)
+    | _, _ => (ds, "bad-op")
+  | ["paste", t, c, ty, d, mode, count] =>
+    match decStr t, decNat c, decTy ty, decStr d, decMode mode, decInt count with
+    | some t, some c, some ty, some d, some mode, some count =>
+      let r := pasteRaw { text := t, cur := c } { text := d, ty := ty } mode count
+      (ds, if pasteOk r then s!"{encStr r.1} {r.2}" else "err")
+    | _, _, _, _, _, _ => (ds, "bad-op")
+  | ["rinit", m] =>
+    match decNat m with
+    | some m => ({ ds with e := { ds.e with ring := [] }, max := m }, encRing [])
+    | none => (ds, "bad-op")
+  | ["rset", ty, t] =>
+    match decTy ty, decStr t with
+    | some ty, some t =>
+      let r := setData ds.max ds.e.ring { text := t, ty := ty }
+      ({ ds with e := { ds.e with ring := r } }, s!"{encRing r} {encTy (getData r).ty} {encStr (getData r).text}")
+    | _, _ => (ds, "bad-op")
+  | ["rrot"] =>
+    let r := rotate ds.e.ring
+    ({ ds with e := { ds.e with ring := r } }, s!"{encRing r} {encTy (getData r).ty} {encStr (getData r).text}")
+  | _ => (ds, "bad-op")
+
+def main : IO Unit :=
+  runS stepLine { e := { buf := { text := [], cur := 0 }, ring := [], dbp := none, prev := .other }, max := 60 }
